@@ -1,7 +1,7 @@
 /-
   Impl/Render.lean — statement → text, per dialect / keyword case, from the regenerated templates
   (Generated/Facts.lean).  Mirrors `sql-templates` (`apply`, `EscapeSqlName`), `fmt.Sprintf` for `%s %d %t`,
-  `Column.pkDefinition` (option restore flags) and the layout of `Migration.MigrationUp/Down`.
+  `Column.optionsDefinition` (option restore flags) and the layout of `Migration.MigrationUp/Down`.
 -/
 import SqlizeModel.Impl.Stmt
 import SqlizeModel.Generated.Facts
@@ -18,12 +18,16 @@ end Facts
 def toLowerAscii (s : String) : String := String.ofList (s.toList.map Char.toLower)
 def toUpperAscii (s : String) : String := String.ofList (s.toList.map Char.toUpper)
 
+/-- the template text before the keyword-case option is applied -/
+def rawTpl (d : Dialect) (method arg : String) : String :=
+  String.join ((Facts.getTpl method d.name (arg != "")).pieces.map fun
+    | .lit s => s
+    | .upperArg => toUpperAscii arg)
+
 /-- a template after `s.apply` (lower-casing when the lowercase option is on) -/
 def Globals.tpl (g : Globals) (method : String) (arg : String := "") : String :=
   let t := Facts.getTpl method g.dialect.name (arg != "")
-  let raw := String.join (t.pieces.map fun
-    | .lit s => s
-    | .upperArg => toUpperAscii arg)
+  let raw := rawTpl g.dialect method arg
   if t.applied && g.lower then toLowerAscii raw else raw
 
 /-- `fmt.Sprintf` restricted to the verbs sqlize uses: each `%s`/`%d`/`%t` consumes the next (pre-rendered) argument -/
@@ -86,18 +90,12 @@ def Opt.render (g : Globals) (o : Opt) : M (Option String) :=
       else .error "nil dereference: ColumnOption.Restore(comment without expression)"
     | .reference => .error "nil dereference: ColumnOption.Restore(reference)"
 
-/-- `strings.Replace(s, old, "", 1)` -/
-def removeFirst (s old : String) : String :=
-  match s.splitOn old with
-  | [] => s
-  | [_] => s
-  | a :: b :: rest => a ++ old.intercalate (b :: rest)
-
-/-- `pkDefinition`: `" " ++ type` then `" " ++ option` for each printed option -/
+/-- `optionsDefinition`: `" " ++ type` then `" " ++ option` for each printed option; with `stripPk` (the MODIFY of a
+    column that is a key on both sides) the PRIMARY KEY option is left out -/
 def ColDef.definition (g : Globals) (c : ColDef) : M String := do
-  let parts ← c.opts.mapM (Opt.render g)
-  let d := parts.foldl (fun acc p => match p with | some s => acc ++ " " ++ s | none => acc) (" " ++ c.typ)
-  pure (if c.stripPk then removeFirst d (" " ++ g.tpl "PrimaryOption") else d)
+  let opts := if c.stripPk then c.opts.filter (fun o => o.kind != .primaryKey) else c.opts
+  let parts ← opts.mapM (Opt.render g)
+  pure (parts.foldl (fun acc p => match p with | some s => acc ++ " " ++ s | none => acc) (" " ++ c.typ))
 
 def spaces (n : Nat) : String := String.ofList (List.replicate n ' ')
 
